@@ -20,5 +20,5 @@ Extraction "model.ml"
   window ser_model tv_logical tv_logical_mask tv_masked carries_mask print_shape parse_shape
   k_is_masked k_setmask k_reset k_mask_from_slice k_mask_from_dense with_soft k_masked pred_fn k_reduce k_runs k_edges k_clone k_filled k_filled_inplace
   k_transpose k_T k_slice k_materialize k_logical k_logical_mask k_validity k_binop k_binop_unsafe k_binop_reuse k_binop_incr z_within mt_len mt_size
-  native_conv native_select to_mat64 spec_native spec_select spec_to_mat64
+  overlaps native_conv native_select to_mat64 spec_native spec_select spec_to_mat64
   ks_pred ks_count ks_noncount ks_any ks_all ks_reduce_axis ks_runs ks_edges ks_fill ks_validity ks_T_shape ks_T ks_slice.
